@@ -315,6 +315,22 @@ func runC05(c *run.Ctx) {
 			}
 		}
 	}
+	// size layer: a script / style body of 64 KiB ... 3 MiB followed (still inside the element) by markup and a marker;
+	// whatever the tokenizer or the sanitiser does at a buffer boundary, the tail of the body must not come out
+	evalOn := func(names []string, in string) {
+		saved := bs
+		bs = pick(saved, names...)
+		eval(in)
+		bs = saved
+	}
+	for _, n := range []int{1 << 16, 1<<20 + 1, 3 << 20} {
+		for _, el := range []string{"script", "style"} {
+			doc := "<b>a</b><" + el + ">" + strings.Repeat("x ", n/2) + "<b>@</b><i>@</i>@</" + el + "><i>z</i>"
+			if c.Own([]byte("c05size"), []byte(fmt.Sprint(n, el))) {
+				evalOn([]string{"ugc", "c05-named", "c05-unskip"}, numberMarkers([]byte(doc)))
+			}
+		}
+	}
 	// byte-level forms glued to the literal names
 	nb := 3
 	if !c.Quick() {
